@@ -79,7 +79,7 @@ def gen_case(rng, tier, index):
         return _shape_case(rng) if rng.random() < 0.5 else _shape_failfast(rng)
     model = projgen.gen_valid_project(rng, nmin=4, nmax=8,
                                       features=set(rng.sample(["checkoutscript", "diamond", "tools", "vars", "provideDeps",
-                                                               "import", "forward", "nobuild"], rng.randint(2, 6))) | {"diamond"})
+                                                               "import", "forward", "nobuild", "twins", "twins"], rng.randint(2, 6))) | {"diamond"})
     case = {"layer": 1, "model": model, "jobs": rng.choice([1, 2, 2, 3, 4, 8]), "keep_going": rng.random() < 0.4,
             "sched_seed": rng.getrandbits(32), "durations": rng.choice([[0, 0.001, 1, 2, 5, 30], [1], [0, 1], [0.001, 5]])}
     if rng.random() < 0.45:
